@@ -415,10 +415,21 @@ def _identity(n, *a, **k):
     return arr(sp.eye(int(n)).tolist())
 
 
-def _sum(x, axis=None, **k):
-    if is_arr(x):
-        return np.sum(x, axis=axis)
+def _sum(x, axis=None, keepdims=False, **k):
+    extra = {kk: v for kk, v in k.items() if kk not in ('dtype', 'out') and v is not None}
+    if extra:
+        raise Opaque('np.sum keyword(s) %s are outside the model' % sorted(extra))
+    if is_arr(x) or axis is not None or keepdims:
+        return np.sum(np.asarray(x, dtype=object), axis=axis, keepdims=bool(keepdims))
     return sum(x)
+
+
+def _mean(x, axis=None, keepdims=False, **k):
+    extra = {kk: v for kk, v in k.items() if kk not in ('dtype', 'out') and v is not None}
+    if extra:
+        raise Opaque('np.mean keyword(s) %s are outside the model' % sorted(extra))
+    a = np.asarray(x, dtype=object)
+    return np.sum(a, axis=axis, keepdims=bool(keepdims)) / (S(a.size) if axis is None else S(a.shape[axis]))
 
 
 def _isclose(a, b, *args, **kw):
@@ -462,7 +473,7 @@ NP_FUNCS = {
     'numpy.hstack': lambda xs: np.hstack([np.asarray(x, dtype=object) for x in xs]),
     'numpy.concatenate': lambda xs, axis=0: np.concatenate([np.asarray(x, dtype=object) for x in xs], axis=axis),
     'numpy.all': lambda x, axis=None, **k: _reduce_axis(_all, x, axis, **k), 'numpy.any': lambda x, axis=None, **k: _reduce_axis(_any, x, axis, **k),
-    'numpy.mean': lambda x, axis=None: np.sum(x, axis=axis) / (S(x.size) if axis is None else S(x.shape[axis])),
+    'numpy.mean': lambda x, axis=None, **k: _mean(x, axis, **k),
     'numpy.conj': lambda x: vmap(sp.conjugate, x),
     'numpy.min': lambda x, axis=None, **k: _reduce_axis(_minof, x, axis, **k), 'numpy.max': lambda x, axis=None, **k: _reduce_axis(_maxof, x, axis, **k),
     'numpy.amin': lambda x, axis=None, **k: _reduce_axis(_minof, x, axis, **k), 'numpy.amax': lambda x, axis=None, **k: _reduce_axis(_maxof, x, axis, **k),
@@ -1158,7 +1169,7 @@ class SymEval:
             if attr in ('min', 'max'):
                 return lambda axis=None, **k: _reduce_axis(_minof if attr == 'min' else _maxof, base, axis, **k)
             if attr in ('dot', 'sum', 'copy', 'transpose', 'conjugate', 'conj', 'reshape', 'tolist', 'all', 'any', 'flatten', 'astype', 'prod'):
-                return {'dot': lambda b: np.dot(base, b), 'sum': lambda axis=None: np.sum(base, axis=axis), 'copy': lambda: base.copy(),
+                return {'dot': lambda b: np.dot(base, b), 'sum': lambda axis=None, **k: _sum(base, axis, **k), 'copy': lambda: base.copy(),
                         'transpose': lambda *a: base.transpose(*a), 'conjugate': lambda: vmap(sp.conjugate, base), 'conj': lambda: vmap(sp.conjugate, base),
                         'reshape': lambda *a: base.reshape(*a), 'tolist': lambda: base.tolist(), 'all': lambda axis=None, **k: _reduce_axis(_all, base, axis, **k), 'any': lambda axis=None, **k: _reduce_axis(_any, base, axis, **k),
                         'flatten': lambda *a, **k: base.flatten(*a, **k), 'astype': lambda *a, **k: base, 'prod': lambda: sp.Mul(*base.flat)}[attr]
@@ -1167,7 +1178,7 @@ class SymEval:
             if attr == 'round':
                 return lambda *a, **k: base      # exact arithmetic: rounding to a number of decimals is the identity on the model values
             if attr == 'mean':
-                return lambda axis=None, **k: (np.sum(base, axis=axis) / (S(base.size) if axis is None else S(base.shape[axis])))
+                return lambda axis=None, **k: _mean(base, axis, **k)
             if attr == 'swapaxes':
                 return lambda a, b: base.swapaxes(a, b)
         if isinstance(base, sp.Basic):
